@@ -1,59 +1,104 @@
-"""C53 — rotating log files: the real LogFile over the crash-able in-memory filesystem (harness/lib/fsim.py),
-random text/bytes writes, rotation lengths, retention counts, reopenings, killed at every primitive (every
-step of rotate(), every partial write) and continued by a new process, vs the Lean model; + the property oracle."""
+"""C53 — rotating log files: the real LogFile over the crash-able in-memory filesystem (harness/lib/fsim.py):
+logs of any name in any directory (glob / regular-expression metacharacters, dots, non-ASCII, hidden), next to other
+logs with rotated files of their own, constructed in every way (keywords, positional, fromFullPath, defaultMode),
+written with text and bytes of every kind (str/bytes subclasses, bytearray, memoryview, texts the encoder refuses),
+reopened, with the write permission taken away and given back, killed at every primitive (every step of rotate(),
+every partial write) and continued by a new process, vs the Lean model; + the property oracle."""
+import contextlib
+import errno
+import fnmatch
+import glob as _glob
+import os as _os
+import posixpath
 import re
 
 from twisted.python import logfile
 
 from lib import fsim
 
-HEADLINE = "TwistedProps.C53.retained_is_suffix_of_written / crash_never_reorders"
-RULE = ("a case = rotateLength, maxRotatedFiles, initial files, a list of processes; each process constructs the "
-        "LogFile (_openFile), performs writes (str incl. multi-byte, bytes, empty) and reopen()s and is killed at one "
-        "cut; for a generated op sequence EVERY cut of its primitive trace is a case (each rename/remove of rotate(), "
-        "between close and rename, before the new file exists, every partial write length), each followed by a "
-        "continuation process that rotates over the gaps left behind; distinct = (rotateLength class, retention, "
-        "#rotations, cut kind, text/bytes mix, reopen?, gaps?)")
-ASSUMES = ["POSIX rename()/remove() are atomic; os.access() says yes (rotate() silently does nothing otherwise)",
-           "the directory holds only files made by this LogFile, plus files whose last dot-component is not a decimal "
-           "number >= 1 without leading zeros/sign/underscores (int() would accept those and rotate() then fails)",
+HEADLINE = "TwistedProps.C53.retained_is_suffix_of_written / crash_never_reorders (+ x_… over refused writes and permission changes)"
+RULE = ("a case = the log's name and directory (default tw.log in logs; 45% another name: no/several/trailing dots, numeric last "
+        "component, glob metacharacters [ ] * ? !, regular-expression metacharacters + ( ) ^ $ | { } \\, non-ASCII, hidden, spaces, "
+        "newline; 25% another directory incl. metacharacters, dots and nesting, with the same log in a directory the "
+        "unescaped pattern would also name), other files in the directory (40%: other logs whose names extend ours / that ours "
+        "extends / look-alikes of a name with metacharacters, with rotated files .1 .2 .3 .10 of their own; files with our "
+        "prefix that are no rotated files), how the LogFile is made (keywords | positional | fromFullPath with keywords | "
+        "fromFullPath positional; defaultMode None/0o600/0o644/0o666/0), rotateLength, maxRotatedFiles, initial files, a "
+        "list of processes (30%: an earlier process shut down in good order); each process constructs the LogFile "
+        "(_openFile), performs writes — str incl. multi-byte and empty, str subclass, bytes, bytes subclass, bytearray, "
+        "memoryview, text with a lone surrogate (refused by the encoder: nothing is written) —, reopen()s and permission "
+        "changes by the administrator (directory read-only: rename/remove/create fail with EACCES; file read-only; back) "
+        "and is killed at one cut; for a generated op sequence EVERY cut of its primitive trace is a case (each "
+        "rename/remove of rotate(), between close and rename, before the new file exists, every partial write length), each "
+        "followed by a continuation process that rotates over the gaps left behind; distinct = (rotateLength class, "
+        "retention, #rotations, cut kinds, kinds of written objects, reopen?, permission change?, gaps?, name class, "
+        "directory class, defaultMode?, constructor, other logs present?)")
+ASSUMES = ["POSIX rename()/remove() are atomic; os.access() tells the truth (while it says no, rotate() silently does nothing "
+           "— driven and modelled: no rotation, nothing lost, rotation resumes)",
+           "besides this log's own files the directory may hold anything whose name does not start with '<name>.' (other "
+           "logs and their rotated files included) and files '<name>.<x>' where int() rejects the last dot-component of "
+           "<x> or it is 0; excluded: foreign files '<name>.<…>.<n>' / '<name>.<n>' with n a number int() accepts that is not a canonical "
+           "decimal >= 1 (leading zeros, sign, underscores, white space, non-ASCII digits), which listLogs() takes for rotated files",
            "retention count >= 1 (maxRotatedFiles=0 behaves like 1: the just-rotated file is always kept; tie only)",
-           "one process at a time; rotate() is only called by write() (a direct call may rotate a short file)"]
-TRUSTED = ["harness/lib/fsim.py", "the index <-> 'path.<decimal>' translation in corr/C53.py and Drv/C53.lean (the model "
-           "numbers the files; '%s.%d' / int() are applied by the glue and checked by every tie case)"]
+           "one process at a time; rotate() is only called by write() (a direct call may rotate a short file)",
+           "name and directory are str (LogFile builds its glob pattern with '%s.*' %, bytes never worked); a write() of "
+           "a text that has no UTF-8 encoding raises and writes nothing (if a changed write() accepts it, any error "
+           "handler's encoding is accepted as 'what was written')"]
+TRUSTED = ["harness/lib/fsim.py", "the glob (fnmatch per path component, glob.escape/has_magic are the real ones) and permission "
+           "(EACCES on rename/remove/create while the directory is read-only) layers in corr/C53.py",
+           "the index <-> '<name>.<decimal>' translation in corr/C53.py and Drv/C53.lean (the model numbers the files; "
+           "'%s.%d' / int() are applied by the glue and checked by every tie case)"]
 MANIFEST = {
     "text": "Lean theorems (TwistedProps/C53.lean): for every configuration, directory state and operation, at every cut "
             "of the primitive trace (rotate()'s renames/removes included) the retained data (rotated files oldest first + "
             "current file) is a suffix of what was retained before plus a prefix of the data being written — equal to it "
             "without retention; hence for every history the retained data is a suffix of everything written (all of it "
             "without retention); rotated files are never shorter than rotateLength; with retention N exactly indices "
-            "1..min(rotations, N) exist; model tied to logfile.py over fsim at every crash point.",
-    "note": "trusts Lean kernel, hand model of LogFile (tied at every cut), fsim.py, the decimal index<->name glue",
+            "1..min(rotations, N) exist; the same (x_retained_is_suffix_of_written, x_crash_never_reorders, xop_crash) for "
+            "histories with writes refused by the encoder and with the write permission taken away and given back; model "
+            "tied to logfile.py over fsim at every crash point, for logs of any name/directory next to other logs, every "
+            "constructor, every kind of text/bytes object.",
+    "note": "trusts Lean kernel, hand model of LogFile (tied at every cut), fsim.py + the glob/permission layers of corr/C53.py, "
+            "the decimal index<->name glue; retention_keeps_newest_N is stated for the basic history language (a refused write "
+            "or a read-only spell changes when rotations happen, not what a rotation does — tie + oracle cover the count there)",
     "technique": "Lean 4 proof (shift lemma for rotate over every cut + induction over histories) + differential tie",
     "design_ref": "DESIGN.md §7.7 C53",
 }
 
-D = fsim.ROOT + "/logs"
-NAME = "tw.log"
-ROT = re.compile(r"^" + re.escape(NAME) + r"\.([1-9][0-9]*)$")
+NAME = "tw.log"          # defaults: cases written before the name / directory became part of the case
+DIR = "logs"
+
+
+def name_of(c):
+    return c.get("name", NAME)
+
+
+def dir_of(c):
+    return fsim.ROOT + "/" + c.get("dir", DIR)
 
 
 def hx(b):
     return b.hex() if b else "-"
 
 
-def index_of(name):
-    if name == NAME:
+_NUM = re.compile(r"^[1-9][0-9]*$")
+
+
+def index_of(fname, logname):
+    """index of a file of the log `logname`: 0 = the current file, i = `<logname>.<decimal i>`; None = not one of
+    the log's files (another log, however it is called, or anything else)"""
+    if fname == logname:
         return 0
-    m = ROT.match(name)
-    return int(m.group(1)) if m else None
+    if fname.startswith(logname + ".") and _NUM.match(fname[len(logname) + 1:]):
+        return int(fname[len(logname) + 1:])
+    return None
 
 
-def split_snapshot(snap):
+def split_snapshot(snap, logname=NAME):
     """→ ({index: bytes}, {foreign name: bytes})"""
     own, foreign = {}, {}
     for n, v in snap.items():
-        i = index_of(n)
+        i = index_of(n, logname)
         if i is None:
             foreign[n] = v
         else:
@@ -65,23 +110,58 @@ def show_files(own):
     return ",".join(f"{i}={hx(own[i])}" for i in sorted(own)) or "."
 
 
+class Text(str):
+    """a `str` subclass (still text)"""
+
+
+class Blob(bytes):
+    """a `bytes` subclass (still bytes)"""
+
+
+SUR = "^"                 # stands for a lone surrogate in the payload of a "tsur" write
+
+
+def argument(op):
+    """the object handed to LogFile.write()"""
+    k, v = op[1], op[2]
+    if k == "text":
+        return v
+    if k == "tsub":
+        return Text(v)
+    if k == "tsur":
+        return v.replace(SUR, "\udc80")
+    b = bytes.fromhex(v)
+    return {"bytes": b, "bsub": Blob(b), "barr": bytearray(b), "mview": memoryview(b)}[k]
+
+
 def payload(op):
-    """→ (bytes written, len() of the argument as passed)"""
-    if op[1] == "text":
+    """→ (bytes written, len() of the argument as passed); a "tsur" text has no UTF-8 encoding: (None, None)"""
+    if op[1] in ("text", "tsub"):
         return op[2].encode("utf8"), len(op[2])
+    if op[1] == "tsur":
+        return None, None
     b = bytes.fromhex(op[2])
     return b, len(b)
 
 
+def unencodable(op):
+    return op[0] == "w" and op[1] == "tsur"
+
+
 def model_line(c):
-    own, _ = split_snapshot({n: bytes.fromhex(v) for n, v in c["pre"].items()})
+    own, _ = split_snapshot({n: bytes.fromhex(v) for n, v in c["pre"].items()}, name_of(c))
     procs = []
     for pr in c["procs"]:
         ops = []
         for op in pr["ops"]:
             if op[0] == "w":
-                b, n = payload(op)
-                ops.append(f"w:{hx(b)}:{n}")
+                if unencodable(op):
+                    ops.append("f")
+                else:
+                    b, n = payload(op)
+                    ops.append(f"w:{hx(b)}:{n}")
+            elif op[0] == "ro":
+                ops.append("ro1" if op[1] else "ro0")
             else:
                 ops.append("r")
         cut = "-" if pr["cut"] is None else f"{pr['cut'][0]}:{pr['cut'][1]}"
@@ -91,28 +171,122 @@ def model_line(c):
 
 def _mkfs(c):
     fs = fsim.FSim()
+    D = dir_of(c)
     fs.makedirs(D)
     for n, v in c["pre"].items():
         fs.put(D + "/" + n, bytes.fromhex(v))
+    for rel, v in c.get("others", {}).items():          # files in neighbouring directories
+        fs.makedirs(posixpath.dirname(fsim.ROOT + "/" + rel))
+        fs.put(fsim.ROOT + "/" + rel, bytes.fromhex(v))
     return fs
+
+
+def _construct(c):
+    name, D, rl, dm, mr = name_of(c), dir_of(c), c["rl"], c.get("dm"), c["mr"]
+    how = c.get("ctor", "init")
+    if how == "init":
+        return logfile.LogFile(name, D, rotateLength=rl, defaultMode=dm, maxRotatedFiles=mr)
+    if how == "pos":
+        return logfile.LogFile(name, D, rl, dm, mr)
+    if how == "full":
+        return logfile.LogFile.fromFullPath(D + "/" + name, rotateLength=rl, defaultMode=dm, maxRotatedFiles=mr)
+    if how == "fullpos":
+        return logfile.LogFile.fromFullPath(D + "/" + name, rl, dm, mr)
+    raise ValueError(how)
 
 
 def _proc(fs, c, pr):
     fs.revive()
     fs.crash_at = tuple(pr["cut"]) if pr["cut"] is not None else None
+    fs.readonly = 0                                      # every process starts with the permissions in order
     res = []
     try:
-        lf = logfile.LogFile(NAME, D, rotateLength=c["rl"], maxRotatedFiles=c["mr"])
+        lf = _construct(c)
         for op in pr["ops"]:
             res.append("crash")
             if op[0] == "w":
-                lf.write(op[2] if op[1] == "text" else bytes.fromhex(op[2]))
+                try:
+                    lf.write(argument(op))
+                except Exception as e:                   # Crash is a BaseException: it passes
+                    res[-1] = "raised:" + type(e).__name__
+                    continue
+            elif op[0] == "ro":
+                fs.readonly = op[1]                      # the administrator's doing, not an action of the process
             else:
                 lf.reopen()
             res[-1] = "ok"
     except fsim.Crash:
         pass
     return res, list(fs.trace)
+
+
+class Glob:
+    """glob.glob / glob.escape over the simulated filesystem with the semantics of the real module for a pattern
+    `<dir>/<base>`: every component with metacharacters is matched with fnmatch (fsim.glob takes <dir> literally),
+    the others literally; hidden names only match patterns that start with a dot; sorted (real order is arbitrary)."""
+
+    def __init__(self, fs):
+        self.fs = fs
+        self.escape = _glob.escape
+        self.has_magic = _glob.has_magic
+
+    def glob(self, pattern, **kw):
+        fs = self.fs
+        fs._read()
+        assert isinstance(pattern, str) and pattern.startswith("/")
+        pc = pattern.split("/")[1:]
+        out = []
+        for full in sorted(fs.files):
+            nc = full.split("/")[1:]
+            if len(nc) != len(pc):
+                continue
+            for n, p in zip(nc, pc):
+                if _glob.has_magic(p):
+                    if (n.startswith(".") and not p.startswith(".")) or not fnmatch.fnmatchcase(n, p):
+                        break
+                elif n != p:
+                    break
+            else:
+                out.append(full)
+        return out
+
+
+@contextlib.contextmanager
+def _patched(fs):
+    """fsim + the real glob semantics + permissions: `fs.readonly` = 1: the directory is not writable (os.access says so;
+    rename/remove/creating a file fail with EACCES; the open file and existing files can still be written),
+    2: the log file is not writable (os.access says so)."""
+    fs.readonly = 0
+    with fsim.patched(fs, logfile, extra=[(logfile, "glob", Glob(fs))]):
+        osp = logfile.os
+
+        def access(path, mode, **kw):
+            fs._read()
+            p = fs.P(path)
+            if mode & _os.W_OK:
+                if p in fs.dirs and fs.readonly == 1:
+                    return False
+                if p in fs.files and fs.readonly == 2:
+                    return False
+            return fs.exists(path)
+
+        def denied(real, creates_only=False):
+            def f(path, *a, **kw):
+                fs._read()
+                if fs.readonly == 1 and not (creates_only and fs.exists(path)):
+                    raise PermissionError(errno.EACCES, "Permission denied", path)
+                return real(path, *a, **kw)
+            return f
+
+        osp.access = access
+        osp.rename = osp.replace = denied(fs.rename)
+        osp.remove = osp.unlink = denied(fs.remove)
+        old_open = logfile.open
+        logfile.open = denied(fs.open, creates_only=True)
+        try:
+            yield fs
+        finally:
+            logfile.open = old_open
 
 
 _LAST = [None, None]
@@ -123,61 +297,86 @@ def _execute(c):
         return _LAST[1]
     fs = _mkfs(c)
     results, traces = [], []
-    with fsim.patched(fs, logfile):
+    with _patched(fs):
         for pr in c["procs"]:
             r, t = _proc(fs, c, pr)
             results.append(r)
             traces.append(t)
-    out = (fs.snapshot(D), results, traces)
+    D = dir_of(c)
+    elsewhere = {fs.rel(k): bytes(v.data) for k, v in fs.files.items() if posixpath.dirname(k) != D}
+    out = (fs.snapshot(D), results, traces, elsewhere)
     _LAST[0], _LAST[1] = c, out
     return out
 
 
 def run_impl(c):
-    snap, results, traces = _execute(c)
-    own, foreign = split_snapshot(snap)
+    snap, results, traces, elsewhere = _execute(c)
+    own, foreign = split_snapshot(snap, name_of(c))
     return show_files(own)
+
+
+HANDLERS = ("surrogatepass", "surrogateescape", "replace", "ignore", "backslashreplace", "xmlcharrefreplace", "namereplace")
+
+
+def _encodings(text):
+    """what a write() that does NOT refuse a text without UTF-8 encoding may have written for it"""
+    out = []
+    for h in HANDLERS:
+        try:
+            out.append(text.encode("utf8", h))
+        except UnicodeError:
+            pass
+    return sorted(set(out))
 
 
 def oracle(c, out):
     if out.startswith("!"):
         return {"key": "raises", "detail": out}
-    snap, results, traces = _execute(c)
-    own, foreign = split_snapshot(snap)
-    pre_own, pre_foreign = split_snapshot({n: bytes.fromhex(v) for n, v in c["pre"].items()})
+    snap, results, traces, elsewhere = _execute(c)
+    logname = name_of(c)
+    own, foreign = split_snapshot(snap, logname)
+    pre_own, pre_foreign = split_snapshot({n: bytes.fromhex(v) for n, v in c["pre"].items()}, logname)
     if foreign != pre_foreign:
         return {"key": "foreign-file-touched", "detail": f"{pre_foreign!r} -> {foreign!r}"}
+    others = {k: bytes.fromhex(v) for k, v in c.get("others", {}).items()}
+    if elsewhere != others:
+        return {"key": "foreign-file-touched", "detail": f"in other directories: {others!r} -> {elsewhere!r}"}
+    for pr, res in zip(c["procs"], results):
+        for op, r in zip(pr["ops"], res):
+            if r.startswith("raised:") and not unencodable(op):
+                return {"key": "write-raises", "detail": f"write({argument(op)!r}) -> {r[7:]}: the data is lost"}
     if c["mr"] == 0:
         return None                                    # outside the stated domain (tie only)
     # everything written, as far as the history determines it
     base = b"".join(pre_own[i] for i in sorted(pre_own, reverse=True) if i) + pre_own.get(0, b"")
-    cands = [base]
+    cands = {base}
     crashed = False
     for pr, res in zip(c["procs"], results):
         for op, r in zip(pr["ops"], res):
-            if op[0] != "w":
-                continue
-            b, _ = payload(op)
+            if op[0] != "w" or r.startswith("raised:"):
+                continue                               # a refused text was not written
+            alts = _encodings(argument(op)) if unencodable(op) else [payload(op)[0]]
             if r == "ok":
-                cands = [w + b for w in cands]
+                cands = {w + b for w in cands for b in alts}
             else:
                 crashed = True
-                cands = [w + b[:j] for w in cands for j in range(len(b) + 1)]
+                cands = {w + b[:j] for w in cands for b in alts for j in range(len(b) + 1)}
         crashed = crashed or pr["cut"] is not None
+    first = min(cands, key=len)
     retained = b"".join(own[i] for i in sorted(own, reverse=True) if i) + own.get(0, b"")
     if c["mr"] is None:
         if retained not in cands:
             return {"key": "lost-or-reordered-without-retention",
-                    "detail": f"retained {retained!r} is not what was written {cands[0]!r}{' (+partial)' if len(cands) > 1 else ''}"}
+                    "detail": f"retained {retained!r} is not what was written {first!r}{' (+partial)' if len(cands) > 1 else ''}"}
     elif not any(w.endswith(retained) for w in cands):
-        return {"key": "retained-not-a-suffix", "detail": f"retained {retained!r} is no suffix of the written {cands[0]!r}"}
+        return {"key": "retained-not-a-suffix", "detail": f"retained {retained!r} is no suffix of the written {first!r}"}
     rl = c["rl"]
     if rl and not pre_own:
         for i, v in own.items():
             if i and len(v) < rl:
-                return {"key": "rotated-file-too-short", "detail": f"{NAME}.{i} has {len(v)} bytes < rotateLength {rl}"}
+                return {"key": "rotated-file-too-short", "detail": f"{logname}.{i} has {len(v)} bytes < rotateLength {rl}"}
     if c["mr"] is not None and not crashed and not pre_own:
-        rotations = sum(1 for t in traces for p in t if p[0] == "rename" and p[1].endswith("/" + NAME))
+        rotations = _rotations(c, traces)
         want = list(range(1, min(rotations, c["mr"]) + 1))
         have = sorted(i for i in own if i)
         if have != want:
@@ -185,10 +384,36 @@ def oracle(c, out):
     return None
 
 
+def _rotations(c, traces):
+    cur = c.get("dir", DIR) + "/" + name_of(c)
+    return sum(1 for t in traces for p in t if p[0] == "rename" and p[1] == cur)
+
+
+GLOBCH, RECH = set("[]*?"), set("+()^$|{}\\")
+
+
+def _cls(s, plain):
+    if s == plain:
+        return "-"
+    k = ""
+    if set(s) & GLOBCH:
+        k += "g"
+    if set(s) & RECH:
+        k += "r"
+    if not s.isascii():
+        k += "u"
+    if s.startswith("."):
+        k += "h"
+    if s.count(".") != plain.count("."):
+        k += "d"
+    return k or "o"
+
+
 def tag(c, out):
-    snap, results, traces = _execute(c)
-    rot = sum(1 for t in traces for p in t if p[0] == "rename" and p[1].endswith("/" + NAME))
-    kinds = "".join(sorted({(op[1][0] if op[0] == "w" else "R") for pr in c["procs"] for op in pr["ops"]}))
+    snap, results, traces, elsewhere = _execute(c)
+    rot = _rotations(c, traces)
+    kinds = "".join(sorted({({"text": "t", "bytes": "b", "tsub": "T", "bsub": "B", "barr": "A", "mview": "M", "tsur": "S"}[op[1]]
+                             if op[0] == "w" else ("P" if op[0] == "ro" else "R")) for pr in c["procs"] for op in pr["ops"]}))
     cutk = []
     for pr, t in zip(c["procs"], traces):
         if pr["cut"] is None:
@@ -196,29 +421,93 @@ def tag(c, out):
         else:
             k, p = pr["cut"]
             cutk.append("p" if p else "k")
-    own, _ = split_snapshot(snap)
+    own, foreign = split_snapshot(snap, name_of(c))
     idx = sorted(i for i in own if i)
     gaps = idx != list(range(1, len(idx) + 1))
-    return (f"rl={'n' if not c['rl'] else min(c['rl'], 4)}:mr={c['mr']}:rot={min(rot, 4)}:cuts={''.join(cutk)}:"
-            f"{kinds}:gaps={'y' if gaps else 'n'}:pre={'y' if c['pre'] else 'n'}")
+    return (f"rl={'n' if not c['rl'] else min(c['rl'], 4)}:mr={c['mr']}:rot={min(rot, 4)}:cuts={''.join(cutk[-3:])}:"
+            f"{kinds}:gaps={'y' if gaps else 'n'}:pre={'y' if c['pre'] else 'n'}:name={_cls(name_of(c), NAME)}:"
+            f"dir={_cls(c.get('dir', DIR), DIR)}:dm={'-' if c.get('dm') is None else 'y'}:{c.get('ctor', 'init')}:"
+            f"sib={'y' if foreign or elsewhere else 'n'}")
 
 
 # ---------------------------------------------------------------------------------------------
 
 TEXTS = ["", "a", "ab", "abc\n", "é", "€uro", "\U0001F600", "héllo wörld\n", "0123456789"]
 BYTES = [b"", b"x", b"line\n", b"\xff\xfe", b"0123456"]
+SURTEXTS = [SUR, "ab" + SUR, SUR + "xyz", "é" + SUR + "0123456789", "abcdefgh" + SUR]     # no UTF-8 encoding: write() refuses them
+
+# names of the log: dots (none, several, trailing, numeric last component), glob metacharacters, regular-expression
+# metacharacters, non-ASCII, hidden, white space
+NAMES = ["log", "a.b.log", "tw.", "tw.1", "tw.log.2", "tw[1].log", "tw*.log", "a?b.log", "[.log", "tw[!x].log", "a+b.log", "c++.log",
+         "log(1).txt", "^tw$.log", "tw|x.log", "tw{1,2}.log", "tw\\.log", "tëst.log", "日志.log", ".tw.log", "tw log.txt", "tw\n.log",
+         "-tw.log", "~tw.log"]
+DIRS = ["lo[g]s", "l*gs", "log?", "logs.1", "v1.2/logs.d", "lögs d", "lo+gs", "(logs)"]
+# other logs that the patterns above (read as a pattern) would also name
+LOOKALIKES = {"tw[1].log": ["tw1.log"], "tw*.log": ["twx.log", "tw.log"], "a?b.log": ["axb.log"], "tw[!x].log": ["twy.log"],
+              "a+b.log": ["aab.log", "ab.log"], "c++.log": ["c.log"], "log(1).txt": ["log1.txt"], "^tw$.log": ["tw.log"],
+              "tw|x.log": ["tw"], "tw{1,2}.log": ["tw1.log", "tw2.log"], "tw\\.log": ["tw.log"], "tw.": ["twx"], "a.b.log": ["axb.log"]}
+DIRLIKES = {"lo[g]s": "logs", "l*gs": "logs", "log?": "logs", "lo+gs": "loogs", "(logs)": "logs"}
+
+
+def _siblings(rng, name):
+    """other logs in the same directory, with rotated files of their own: names that extend ours, that ours extends,
+    that differ in one character, and the look-alikes of a name with metacharacters"""
+    logs = [name + "2", name + "x", "x" + name, "other.log", name + "-old", name + "~"]
+    if len(name) > 1:
+        logs += [name[:-1], name[1:]]
+    logs += LOOKALIKES.get(name, [])
+    out = {}
+    for lg in rng.sample(logs, rng.choice([1, 2, 3])) + LOOKALIKES.get(name, [])[:1]:
+        if index_of(lg, name) is not None or lg.startswith(name + "."):
+            continue
+        for i in rng.sample([1, 2, 3, 10], rng.choice([1, 2])):
+            out[f"{lg}.{i}"] = (b"S" + str(i).encode()).hex()
+        if rng.random() < 0.5:
+            out[lg] = b"sib".hex()
+    if rng.random() < 0.4:                          # our prefix, but no rotated file of ours
+        out[name + rng.choice([".txt", ".1.bak", ".0", ".bak", ".1~"])] = "78"
+    return {k: v for k, v in out.items() if index_of(k, name) is None}
+
+
+def _place(rng, c):
+    """where the log lives, how it is constructed, what else is there"""
+    if rng.random() < 0.45:
+        c["name"] = rng.choice(NAMES)
+    if rng.random() < 0.25:
+        c["dir"] = rng.choice(DIRS)
+        like = DIRLIKES.get(c["dir"])
+        if like and rng.random() < 0.7:             # the same log in a directory the pattern would also name
+            n = name_of(c)
+            c["others"] = {f"{like}/{n}.1": "6f31", f"{like}/{n}": "6f30"}
+    if rng.random() < 0.4:
+        c["pre"] = _siblings(rng, name_of(c))
+    if rng.random() < 0.3:
+        c["dm"] = rng.choice([0o600, 0o644, 0o666, 0])
+    if rng.random() < 0.35:
+        c["ctor"] = rng.choice(["full", "full", "fullpos", "pos"])
+    return c
 
 
 def _ops(rng, n):
     ops = []
+    ro = 0
     for _ in range(n):
         r = rng.random()
-        if r < 0.5:
+        if r < 0.36:
             ops.append(["w", "text", rng.choice(TEXTS)])
-        elif r < 0.9:
+        elif r < 0.42:
+            ops.append(["w", "tsub", rng.choice(TEXTS)])
+        elif r < 0.48:
+            ops.append(["w", "tsur", rng.choice(SURTEXTS)])
+        elif r < 0.68:
             ops.append(["w", "bytes", rng.choice(BYTES).hex()])
-        else:
+        elif r < 0.84:
+            ops.append(["w", rng.choice(["bsub", "barr", "barr", "mview"]), rng.choice(BYTES).hex()])
+        elif r < 0.92:
             ops.append(["r"])
+        else:
+            ro = 0 if ro else rng.choice([1, 1, 2])
+            ops.append(["ro", ro])
     return ops
 
 
@@ -234,7 +523,7 @@ def _cuts(trace):
 
 def _last_trace(c):
     fs = _mkfs(c)
-    with fsim.patched(fs, logfile):
+    with _patched(fs):
         for pr in c["procs"][:-1]:
             _proc(fs, c, pr)
         last = dict(c["procs"][-1])
@@ -275,6 +564,41 @@ def corpus():
         {"rl": 2, "mr": 3, "pre": {NAME: "6363", NAME + ".2": "6262", NAME + ".5": "6161"},
          "procs": [{"ops": [["w", "text", "dd"], ["w", "text", "ee"], ["w", "text", "ff"]], "cut": None}]},
     ]
+    W = lambda *xs: [["w", "text", x] for x in xs]
+    four = W("aa", "bb", "cc", "dd")
+    base += [
+        # the log's name / directory is a name, not a pattern (witness of the defect fixed in listLogs: without
+        # glob.escape only "cc","dd" survive), and other logs the pattern would name are left alone
+        {"rl": 2, "mr": None, "pre": {}, "name": "tw[1].log", "procs": [{"ops": four, "cut": None}]},
+        {"rl": 2, "mr": None, "pre": {}, "dir": "lo[g]s", "others": {"logs/tw.log.1": "6f31", "logs/tw.log": "6f30"},
+         "procs": [{"ops": four, "cut": None}]},
+        {"rl": 2, "mr": 2, "pre": {"twx.log.1": "5331", "twx.log.2": "5332", "twx.log": "73"}, "name": "tw*.log", "procs": [{"ops": four, "cut": None}]},
+        {"rl": 2, "mr": None, "pre": {"tw1.log.1": "5331"}, "name": "tw[1].log", "ctor": "full", "procs": [{"ops": four, "cut": None}]},
+        {"rl": 2, "mr": None, "pre": {"aab.log.1": "5331"}, "name": "a+b.log", "procs": [{"ops": four, "cut": None}]},
+        {"rl": 2, "mr": 2, "pre": {}, "name": "c++.log", "procs": [{"ops": four, "cut": None}]},
+        {"rl": 2, "mr": None, "pre": {}, "name": "log(1).txt", "dir": "v1.2/logs.d", "procs": [{"ops": four, "cut": None}]},
+        {"rl": 2, "mr": None, "pre": {}, "name": ".tw.log", "procs": [{"ops": four, "cut": None}]},
+        {"rl": 2, "mr": None, "pre": {}, "name": "tw.1", "procs": [{"ops": four, "cut": None}]},
+        # other logs next to ours, with rotated files of their own
+        {"rl": 2, "mr": None, "pre": {"tw.log2.1": "5331", "tw.logx.3": "5333", "xtw.log.1": "5331", "tw.lo.2": "5332", "other.log.1": "5331"},
+         "procs": [{"ops": four, "cut": None}]},
+        {"rl": 2, "mr": 1, "pre": {"tw.log2.1": "5331", "tw.log2": "73", "tw.log-old.2": "5332"}, "procs": [{"ops": four, "cut": None}]},
+        # explicit defaultMode: a restart and a reopen keep what is there
+        {"rl": 50, "mr": None, "pre": {}, "dm": 0o600, "procs": [{"ops": W("abc") + [["r"]] + W("def"), "cut": None}, {"ops": W("ghi"), "cut": None}]},
+        {"rl": 3, "mr": 2, "pre": {}, "dm": 0, "ctor": "pos", "procs": [{"ops": W("abc", "de"), "cut": None}, {"ops": W("f", "g", "hij", "k"), "cut": None}]},
+        # fromFullPath passes everything on
+        {"rl": 2, "mr": 1, "pre": {}, "ctor": "full", "procs": [{"ops": four, "cut": None}]},
+        {"rl": 2, "mr": 2, "pre": {}, "ctor": "fullpos", "dm": 0o644, "procs": [{"ops": four + four, "cut": None}]},
+        # text and bytes of every kind
+        {"rl": 4, "mr": None, "pre": {}, "procs": [{"ops": [["w", "barr", "616263"], ["w", "tsub", "dé"], ["w", "bsub", "6566"], ["w", "mview", "676869"],
+                                                            ["w", "tsub", ""], ["w", "barr", ""], ["w", "text", "z"]], "cut": None}]},
+        # a text without UTF-8 encoding is refused; the log goes on as if nothing had happened
+        {"rl": 5, "mr": None, "pre": {}, "procs": [{"ops": W("ab") + [["w", "tsur", SUR + "xyz"]] + W("cd", "efg", "h"), "cut": None}]},
+        {"rl": 2, "mr": 1, "pre": {}, "procs": [{"ops": W("ab") + [["w", "tsur", "abcdefgh" + SUR], ["w", "tsur", SUR]] + W("cd", "e"), "cut": None}]},
+        # the directory (1) / the file (2) is not writable for a while: no rotation, nothing lost, rotation resumes
+        {"rl": 2, "mr": None, "pre": {}, "procs": [{"ops": W("aa", "bb") + [["ro", 1]] + W("cc", "dd") + [["r"]] + W("ee") + [["ro", 0]] + W("ff", "gg"), "cut": None}]},
+        {"rl": 2, "mr": 1, "pre": {}, "procs": [{"ops": W("aa") + [["ro", 2]] + W("bb", "cc") + [["ro", 0]] + W("dd", "ee"), "cut": None}]},
+    ]
     out = []
     for c in base:
         out += list(expand(c, rng, cont=True))
@@ -283,11 +607,13 @@ def corpus():
 
 def generate(rng, tier):
     n = 70 if tier == "quick" else 1500
+    sizes = [1, 3, 6, 10, 15] if tier == "quick" else [3, 10, 20, 40]
     for _ in range(n):
         c = {"rl": rng.choice([1, 2, 2, 3, 3, 5, 5, 8, 8, 12, None, 0]), "mr": rng.choice([None, None, None, 1, 2, 2, 3, 3, 0]), "pre": {},
-             "procs": [{"ops": _ops(rng, rng.choice([1, 3, 6, 10, 15] if tier == "quick" else [3, 10, 20, 40])), "cut": None}]}
-        if rng.random() < 0.2:
-            c["pre"] = {NAME + ".txt": "78"}
+             "procs": [{"ops": _ops(rng, rng.choice(sizes)), "cut": None}]}
+        _place(rng, c)
+        if rng.random() < 0.3:                      # an earlier run of the program, shut down in good order
+            c["procs"].insert(0, {"ops": _ops(rng, rng.choice([1, 3, 6])), "cut": None})
         yield from expand(c, rng, cont=(rng.random() < 0.6), sample=(None if tier == "quick" else 40))
 
 
@@ -315,3 +641,12 @@ def shrink(c):
         d = dict(c)
         d["pre"] = {k: v for k, v in c["pre"].items() if k != n}
         yield d
+    for k in ("name", "dir", "dm", "ctor", "others"):
+        if k in c:
+            d = dict(c)
+            del d[k]
+            if k == "dir":
+                d.pop("others", None)
+            if k == "name":
+                d["pre"] = {}
+            yield d
